@@ -40,7 +40,7 @@ class C10(Prop):
                   "writer plus those still in flight plus current-last equal the increments whose fetch_add executed (mod 2^64), "
                   "and the idle logic drops only zero deltas; with one flushing thread every delta is (mod 2^64) the growth of the "
                   "added total between the flusher's two most recent current.loads, and all such windows together never exceed what "
-                  "was added; from a quiescent configuration at most one more zero is sent and then nothing; every gauge flush returns "
+                  "was added; once no thread updates the counter any more (flusher between two flushes) at most one catch-up delta and then at most one zero are sent, and then nothing; every gauge flush returns "
                   "the fold of exactly the writes executed before its load; sequentially, for every history of a key: the counter, gauge "
                   "and histogram clauses of the executable property hold on the model (presence phases = idle-once, increment sums, "
                   "absolute running-maximum differences without wrap, global bound, each histogram value in exactly one flush), timestamp "
